@@ -264,25 +264,31 @@ def judge_flush(prop, case, res, exp, exp_outputs, docs):
     return vs
 
 
-def judge_hints(prop, case, outs, docs):
+def judge_hints(prop, case, outs, docs, exp_outputs=None):
     """C04: no member whose hint bit is clear, every table entry reachable, preamble masks as configured, canaries absent"""
     vs = []
     S = cdns_schema
     ops = case['ops']
     bps_all = list(case['preamble']['bps']) + [o['bp'] for o in ops if o['op'] == 'addbp']
+    exp_by_id = {o['id']: o for o in (exp_outputs or [])}
     for o in outs:
         d = docs.get(o.id)
         if d is None:
             continue
+        eo = exp_by_id.get(o.id)
+        hdr = (eo or {}).get('bps_header') or bps_all
         for i, bp in enumerate(d.preamble['bps']):
-            want = bps_all[i]
+            if i >= len(hdr):
+                break
+            want = hdr[i]
             for k in ('qrh', 'sigh', 'rrh', 'oth'):
                 if bp[k] != want[k]:
                     vs.append(Violation(prop, '%s:preamble-mask:%s' % (prop, k), 'output %s preamble set %d states %s=%#x, configured %#x' % (o.id, i, k, bp[k], want[k]), {'case': case, 'output': o.id}))
         for bi, raw in enumerate(d.blocks_raw):
             bp = bps_all[raw['preamble'].get('bpi', 0)]
+            if eo and len(eo['blocks']) == len(d.blocks_raw) and eo['blocks'][bi].bp is not None:
+                bp = eo['blocks'][bi].bp          # the parameters this very block was armed with
             qrh, sigh, rrh, oth = bp['qrh'], bp['sigh'], bp['rrh'], bp['oth']
-            direct = any(op['op'] == 'dblock' for op in ops)
             for qi, q in enumerate(raw.get('qr', [])):
                 for bit, members in S.QR_HINT_MEMBERS.items():
                     for m in members:
